@@ -157,7 +157,20 @@ func c08Exec(fillers int) func(x *XSpec, s *vsched.Sched, hist []Op, wantDump bo
 			}
 		}
 		nextOps = acceptedGCs(m, bucketOf(x.Cfg, "a"))
-		step := len(hist)
+		mm, dump := merkleCheck(s, m, md, x.Cfg, x.Name, keys, len(hist))
+		if mm != nil || !wantDump {
+			return mm, ""
+		}
+		return nil, dump
+	}
+}
+
+// merkleCheck compares the listing of every prefix with (1) an independent recomputation from the content the store
+// reports and (2) a canonical store holding the same content.
+func merkleCheck(s *vsched.Sched, m *Machine, md *Model, cfg *store.VerifCfg, name string, keys []string, step int) (*Mismatch, string) {
+	x := &XSpec{Cfg: cfg, Name: name}
+	wantDump := true
+	{
 		// content as the store itself reports it
 		var content []contentItem
 		var csb strings.Builder
@@ -312,7 +325,7 @@ func c08Exec(fillers int) func(x *XSpec, s *vsched.Sched, hist []Op, wantDump bo
 			}
 		}
 		if wantDump {
-			return nil, csb.String() + "|" + fmt.Sprint(len(hist))
+			return nil, csb.String() + "|" + fmt.Sprint(step)
 		}
 		return nil, ""
 	}
@@ -384,6 +397,14 @@ func C08(job *Job, r *Report) {
 		}
 		x.Explore(r, job)
 	}
+	if job.Part == "" || job.Part == "b" {
+		pb := 2
+		if job.Tier != "quick" {
+			pb = 3
+		}
+		runScenarios(&Job{Check: job.Check, Tier: job.Tier, Shard: job.Shard, NShards: job.NShards, Seed: job.Seed}, r, c08SchedScenarios(), []int{pb}, -1)
+		r.Extra["part_b"] = map[string]interface{}{"preemption_bound": pb, "rule": "a listing (root and one inner prefix, answered from cached node hashes) racing a write (new key / overwrite + delete) under the controlled scheduler, every interleaving up to the bound; at quiescence the listing of every prefix must again equal the recomputation from the content and the canonical store (a stale cached hash would persist)"}
+	}
 	r.Count("canonical_builds", c08Stats.canon)
 	r.Count("canonical_cache_hits", c08Stats.canonHits)
 	if job.Shard == 0 {
@@ -394,4 +415,55 @@ func C08(job *Job, r *Report) {
 			r.Violate(Violation{Property: "C08", Sig: "C08|leaf|" + b, Class: "leaf-roundtrip", Summary: b, Replay: mustJSON(map[string]string{"kind": "leaf", "case": b})})
 		}
 	}
+}
+
+// ---- part (b): a listing racing a write must not leave stale cached node hashes behind ----
+
+func c08SchedScenarios() []*Scenario {
+	var out []*Scenario
+	mk := func(name string, writer func(rec *Recorder), lists []string) {
+		cfg := cfgMerkle("b1-h3-conc", 1, nil, 3, 0, 4)
+		cfg.Name = name
+		out = append(out, &Scenario{Property: "C08", Name: name, Cfg: cfg, Run: func(sc *Scenario, s *vsched.Sched) (*Mismatch, string) {
+			m := NewMachine(s, sc.Cfg, nil)
+			m.AutoDrain = true
+			defer m.Exit()
+			rec := &Recorder{st: m.St}
+			keys := []string{"a", "b", "c", "f000", "f001", "f002"}
+			for i, k := range []string{"a", "b", "f000", "f001", "f002"} {
+				rec.Set(0, k, val(0, i, k, 0)) // five live keys under the root: listed at node level (threshold 4)
+			}
+			s.Drain()
+			// warm the cached node hashes
+			for _, p := range lists {
+				m.St.ListDir(&store.KeyInfo{StringKey: p, Key: []byte(p), KeyIsPath: true})
+			}
+			Tick()
+			s.Parallel(
+				func() { writer(rec) },
+				func() {
+					for _, p := range lists {
+						m.St.ListDir(&store.KeyInfo{StringKey: p, Key: []byte(p), KeyIsPath: true})
+					}
+				},
+			)
+			obs := obsString(rec.Ops)
+			// the model after quiescence: the write with the highest version of every key
+			md := NewModel(false)
+			for _, o := range rec.Ops {
+				if o.Err != "" || (o.Kind == "del" && !o.Found) || o.Kind == "get" {
+					continue
+				}
+				cur := md.M[o.Key]
+				if cur == nil || abs32i(o.Ver) > abs32i(cur.Ver) {
+					md.M[o.Key] = &MVal{Body: []byte(o.In), Ver: o.Ver}
+				}
+			}
+			mm, _ := merkleCheck(s, m, md, sc.Cfg, sc.Name, keys, 0)
+			return mm, obs
+		}})
+	}
+	mk("L1-list-vs-new-key", func(rec *Recorder) { rec.Set(1, "c", val(1, 0, "c", 0)) }, []string{"", "a"})
+	mk("L2-list-vs-overwrite-delete", func(rec *Recorder) { rec.Set(1, "a", val(1, 0, "a", 0)); rec.Del(1, "b") }, []string{"", "ab"})
+	return out
 }
